@@ -703,6 +703,15 @@ fn apply_exclusions(p: &mut Prog, cx: &Cx, r: &mut Vec<String>) {
                 }
             }
         }
+        // the arms of a numeric `match` are joined the same way as the arms of an `if`
+        E::MatchNum(_, arms, d) if ex_arm => {
+            for arm in arms.iter_mut().map(|(_, a)| a).chain(std::iter::once(&mut **d)) {
+                if is_proj(tail(arm)) {
+                    plus_zero(tail(arm));
+                    hit_arm = true;
+                }
+            }
+        }
         _ => {}
     });
     if hit_arm {
